@@ -454,4 +454,28 @@ def r7_nodetype(chk, rule='C06.R7'):
                                                      'symbol table row list')
 
 
-RULES = [r1_normalisation, r2_table_index, r3_object_lists, r4_compliances, r5_grammar_pairs, r6_template, r7_nodetype]
+REFERENCE_PRODUCTIONS = set([
+    'imports', 'importPart', 'import', 'importIdentifiers', 'importIdentifier',
+    'IndexPart', 'MibIndex', 'IndexTypes', 'IndexType', 'Index', 'Entry',
+    'ObjectGroupObjectsPart', 'NotificationObjectsPart', 'Objects', 'Object',
+    'NotificationsPart', 'Notifications', 'Notification', 'VarPart', 'VarTypes', 'VarType',
+    'MandatoryPart', 'MandatoryGroups', 'MandatoryGroup', 'CompliancePart', 'Compliances', 'Compliance',
+    'ComplianceGroup', 'ComplianceObject', 'ComplianceModulePart', 'ComplianceModules', 'ComplianceModule'])
+
+
+def r8_references_reach_the_tree(chk):
+    """the grammar actions that build the lists of object references neither drop, duplicate nor reorder a member
+    (the C02 term rules restricted to the productions a reference passes through)"""
+    from rules.C02 import r1_nothing_dropped, r2_list_idiom
+    r1_nothing_dropped(chk, only_lhs=REFERENCE_PRODUCTIONS, rule='C06.R8')
+    r2_list_idiom(chk, rule='C06.R8', only_lhs=REFERENCE_PRODUCTIONS)
+
+
+def r9_collectors(chk):
+    ci = chk.model.cls(INTER, 'IntermediateCodeGen')
+    ir.elementwise_collectors(chk, 'C06.R9', ci, ['genTableIndex', 'genCompliances'], 2)
+
+
+
+RULES = [r1_normalisation, r2_table_index, r3_object_lists, r4_compliances, r5_grammar_pairs, r6_template, r7_nodetype,
+         r8_references_reach_the_tree, r9_collectors]
